@@ -244,7 +244,9 @@ pub fn execute_c15(plan: &Plan) -> Outcome {
                 match (closer.fin_ns, &closer.end) {
                     (Some(_), None) => v.push(Violation::new("C15", sig("flow-not-released-after-half-close"), format!("flow {ix}: the {closer_name} half-closed, the {other_name} saw {:?}, but the proxy never closed the {closer_name}'s connection (timed_out={}) {}", other.end, run.timed_out, run.stall_dump))),
                     (Some(t0), Some(_)) => {
-                        let last_rx = closer.recv_log.last().map(|x| x.0).unwrap_or(0);
+                        // (slow is not stalled: the clock starts when the transfer is over - the half-closer has received its last
+                        // byte and the other side has received the last byte the half-closer wrote)
+                        let last_rx = closer.recv_log.last().map(|x| x.0).unwrap_or(0).max(other.recv_log.last().map(|x| x.0).unwrap_or(0));
                         if closer.end_ns.saturating_sub(t0.max(last_rx)) > slack_ns {
                             v.push(Violation::new("C15", sig("late-release-after-half-close"), format!("flow {ix}: the {closer_name} half-closed; the proxy closed its connection {:.1} s later", (closer.end_ns - t0) as f64 / 1e9)));
                         }
